@@ -5,7 +5,7 @@ from . import helpers_rules as H
 from . import alias_rules as A
 
 META = {
-    'claim_added': 'Also decided: node texts are hashed only for ScalarNodes (I7), format strings are literals (I10), table lookups are not guarded by membership in another table (I1b), converting handlers cannot fail themselves, recogniser exits return pairs, whatever resolves to bool/float (and, as known findings, int/timestamp) is in the domain of the PyYAML constructor that runs. Round 3: every call of a value (a parameter or local holding a user class or callable) on the load side sits in a converting `except Exception`; the cycle check dominates every other walk over the composed tree (R08.13). Round 6: R08.16 - every receiver of .format() on the load side is program text; membership tests in sets/dicts hash node values only for ScalarNodes; a bare re-raise lets out exactly what the protected statements let out; every raise site is judged. Round 6 (E14): caches on the code this property is about are invisible - no value that lives in a memo cell (dict / lazily filled attribute / lru_cache) is modified by the code it is handed to, the key of a cell contains every input its value depends on, no mutable parameter default is modified or handed out; given that, the program is analysed as if every lookup missed. Round 11: R08.18 - the key test of __strip_extra_attributes rejects exactly the keys that are not str-tagged scalars; the exempt indexing idiom of __type_check_attributes and the key texts of R08.5 rest on it.',
+    'claim_added': 'Also decided: node texts are hashed only for ScalarNodes (I7), format strings are literals (I10), table lookups are not guarded by membership in another table (I1b), converting handlers cannot fail themselves, recogniser exits return pairs, whatever resolves to bool/float (and, as known findings, int/timestamp) is in the domain of the PyYAML constructor that runs. Round 3: every call of a value (a parameter or local holding a user class or callable) on the load side sits in a converting `except Exception`; the cycle check dominates every other walk over the composed tree (R08.13). Round 6: R08.16 - every receiver of .format() on the load side is program text; membership tests in sets/dicts hash node values only for ScalarNodes; a bare re-raise lets out exactly what the protected statements let out; every raise site is judged. Round 6 (E14): caches on the code this property is about are invisible - no value that lives in a memo cell (dict / lazily filled attribute / lru_cache) is modified by the code it is handed to, the key of a cell contains every input its value depends on, no mutable parameter default is modified or handed out; given that, the program is analysed as if every lookup missed. Round 11: R08.18 - the key test of __strip_extra_attributes rejects exactly the keys that are not str-tagged scalars; the exempt indexing idiom of __type_check_attributes and the key texts of R08.5 rest on it. Round 12: built-in scalars are accepted on their exact tag only (R01.5 runs here: an int spelling accepted for float reaches construct_yaml_float(\'0x1F\')); R08.19 - str methods on key texts only for scalar keys (known findings F33a-b).',
     'level': 'other',
     'technique': 'static: interprocedural escape sets (explicit raises minus enclosing handlers, through name-resolved callees, '
                  'dead code pruned by the CFG), converting-handler check at every user-code call site, closed table of implicit '
@@ -53,5 +53,10 @@ def run(ctx):
     # texts of R08.5 are safe only because every key of a class mapping is a str-tagged scalar by then (constructed key == key text;
     # a key `2:` constructs to 2 and matches no key text: IndexError; `!!int x:` reaches int('x'): ValueError)
     R3.r04_10_key_test_table(ctx, 'R08.18')
+    R3.r08_19_key_texts_of_scalar_keys_only(ctx)
+    # round 12: a scalar reaches PyYAML's constructor for tag T only if it was *resolved* as T - an int spelling accepted where a float
+    # is declared is retagged float, and construct_yaml_float raises ValueError on 0x1F / 0b101 (R08.10 only speaks for texts the
+    # float pattern admits)
+    S.r01_5_scalar(ctx)
     from . import memo_rules as M
     M.memo_sound(ctx, 'R08.M')
